@@ -87,15 +87,19 @@ class Pages(Files):
     ) -> Iterable[bytes]:
         if_none_match: str = environ.get("HTTP_IF_NONE_MATCH", "")
         if_modified_since: str = environ.get("HTTP_IF_MODIFIED_SINCE", "")
-        filepath = self.ensure_absolute_path(request_path(environ))
+        path = request_path(environ)
+        filepath = self.ensure_absolute_path(path)
         stat_result, is_file = self.check_path_is_file(filepath)
         if (
             stat_result is None  # filepath is not exist
             and filepath is not None  # Just for type check
             and not filepath.endswith(".html")  # filepath is not a html file
+            and filepath != self.directory  # "<directory>.html" is outside the directory
         ):
-            filepath += ".html"
-            stat_result, is_file = self.check_path_is_file(filepath)
+            html_stat_result, html_is_file = self.check_path_is_file(filepath + ".html")
+            if html_is_file:  # only a regular file stands in for the extension-less URL
+                filepath += ".html"
+                stat_result, is_file = html_stat_result, html_is_file
 
         if stat_result is not None:
             assert filepath is not None  # Just for type check
@@ -103,7 +107,9 @@ class Pages(Files):
                 return self.file_response(
                     filepath, stat_result, if_none_match, if_modified_since
                 )(environ, start_response)
-            if stat.S_ISDIR(stat_result.st_mode):
+            # a directory URL without the trailing slash (with it, `filepath` is the
+            # index page, and a directory of that name is simply not found)
+            if stat.S_ISDIR(stat_result.st_mode) and not path.endswith("/"):
                 try:
                     url = URL(environ=environ)
                     url = url.replace(scheme="", path=url.path + "/")
